@@ -112,4 +112,49 @@ MUTANTS = [
   (["C01"], "midi2freq-a4-is-68", "lazy_midi.py",
    "MIDI_A4 = 69   # MIDI Pitch number", "MIDI_A4 = 68   # MIDI Pitch number",
    "caught"),
+
+  # ---- C04 ------------------------------------------------------------------
+  (["C04"], "num-minus-one-shortcut-sign", "lazy_filters.py",
+   '        data_sum.append("-d{idx}".format(idx=delay))',
+   '        data_sum.append("d{idx}".format(idx=delay))', "caught"),
+  (["C04"], "den-plus-one-shortcut-sign", "lazy_filters.py",
+   '        data_sum.append("-m{idx}".format(idx=delay))',
+   '        data_sum.append("m{idx}".format(idx=delay))', "caught"),
+  (["C04"], "memory-shift-wrong-order", "lazy_filters.py",
+   "                   for idx in xrange(lm, 0, -1)]",
+   "                   for idx in xrange(1, lm + 1)]", "caught"),
+  (["C04"], "memory-reversed", "lazy_filters.py",
+   "      memory = [data for idx, data in tw]",
+   "      memory = [data for idx, data in tw][::-1]", "caught"),
+  (["C04"], "gain-applied-to-last-term-only", "lazy_filters.py",
+   '        expr = "({expr}) / ({gain})".format(expr=expr, gain=gain)',
+   '        expr = "{expr} / ({gain})".format(expr=expr, gain=gain)', "caught"),
+  (["C04"], "pre-input-ignores-zero", "lazy_filters.py",
+   '        gen_func += ["  {d_vars} = zero".format(d_vars=" = ".join(',
+   '        gen_func += ["  {d_vars} = 0.".format(d_vars=" = ".join(', "caught"),
+  (["C04"], "default-memory-ignores-zero", "lazy_filters.py",
+   "      memory = [zero for unused in xrange(lm)]",
+   "      memory = [0. for unused in xrange(lm)]", "caught"),
+  (["C04"], "callable-memory-asked-one-more", "lazy_filters.py",
+   "        memory = memory(lm)", "        memory = memory(lm + 1)", "caught"),
+  (["C04"], "short-memory-padded-on-wrong-side", "lazy_filters.py",
+   "        memory = list(zero_pad(memory, lm - actual_len, zero=zero))",
+   "        memory = list(zero_pad(memory, 0, lm - actual_len, zero=zero))",
+   "silent"),
+  (["C04"], "noncausal-check-numerator-only", "lazy_filters.py",
+   "    if any(key < 0 for key, value in it.chain(self.numpoly.terms(),\n"
+   "                                              self.denpoly.terms())\n"
+   "          ):\n      raise ValueError(\"Non-causal filter\")",
+   "    if any(key < -1 for key, value in it.chain(self.numpoly.terms(),\n"
+   "                                              self.denpoly.terms())\n"
+   "          ):\n      raise ValueError(\"Non-causal filter\")", "silent"),  # equivalent: numlist raises too
+  (["C04"], "normalisation-shifts-numerator-wrong-way", "lazy_filters.py",
+   "      self.numpoly *= poly_delta\n", "      self.numpoly *= Poly([0, 1]) ** power\n",
+   "caught"),
+  (["C04"], "allzero-yields-float-zero", "lazy_filters.py",
+   '                   "    yield zero"', '                   "    yield 0."',
+   "caught"),
+  (["C04"], "benign-expr-extra-parens", "lazy_filters.py",
+   '      expr = " + ".join(data_sum)', '      expr = "(" + " + ".join(data_sum) + ")"',
+   "silent"),
 ]
